@@ -622,6 +622,13 @@ func runC05History(t *fw.T) {
 				}
 			}
 			t.Count("registrations_checked", 1)
+			if err != nil && !wantErr && !custom {
+				// a built-in token refused in a role it does not have: the statement only says when a registration IS refused,
+				// an implementation may be stricter about built-in tokens; not judged, the history ends here
+				t.Count("builtin_free_role_refused_not_judged", 1)
+				bad = true
+				continue
+			}
 			if (err != nil) != wantErr {
 				t.Violate("duplicate-refusal", role, fmt.Sprintf("Register%sOperator(%s) returned err=%v, model says refused=%v after history %v", role, tokName, err, wantErr, hist), wit())
 				bad = true
